@@ -317,6 +317,44 @@ def run_shard(spec):
                     check(desc, e, expected)
             if len(violations) >= 12:
                 break
+    # ---- a dependency walk that FAILS (RecursionError on a very deep sum in the plain-Python build) must not
+    # influence later walks over the same sub-expression objects
+    import sys
+    leaves_cycle = [r["a"], r["b"], r["n"]["x"], r["o"].p, r["l"][0], g.ga]
+    spine = []
+    e = r["c"] + 0
+    for i in range(sys.getrecursionlimit() + 600):
+        e = e + leaves_cycle[i % len(leaves_cycle)]
+        spine.append(e)
+    try:
+        e._get_dependencies()
+    except RecursionError:
+        counters["failed_walks_provoked"] = counters.get("failed_walks_provoked", 0) + 1
+    except Exception as exc:
+        violations.append({"what": "C05 dependency walk of a %d-term sum raised %s: %s" % (len(spine), type(exc).__name__, str(exc)[:100]),
+                           "case": ["deep-sum"]})
+    full = {rc, ra, rb, rn, I(rn, "x", m), ro, A(ro, "p", m), rl, I(rl, 0, m), I(g, "ga", m)}
+    for back in (5, 100, 500, 900, len(spine) - 300, len(spine) - 40):
+        sub = spine[len(spine) - 1 - back] if back < len(spine) else spine[0]
+        if len(spine) - back > sys.getrecursionlimit() - 200:
+            continue        # still too deep for Python itself
+        for wname, mk in (("mul", lambda x: x * 2), ("neg", lambda x: -x), ("call", lambda x: f.f(x, 1)), ("rhs", lambda x: 1 - x),
+                          ("abs", lambda x: abs(x)), ("item-key", lambda x: r["l"][x])):
+            counters["walks_after_failed_walk"] = counters.get("walks_after_failed_walk", 0) + 1
+            counters["structural_cases"] = counters.get("structural_cases", 0) + 1
+            x = mk(sub)
+            extra = {ff} if wname == "call" else ({x, rl} if wname == "item-key" else set())
+            try:
+                got = x._get_dependencies()
+            except RecursionError:
+                counters["walks_after_failed_walk_too_deep"] = counters.get("walks_after_failed_walk_too_deep", 0) + 1
+                continue
+            if got != full | extra:
+                violations.append({"what": "C05 after a failed walk: dependencies of %s(<sum of %d terms>): missing %s, unexpected %s" % (
+                    wname, len(spine) - back, sorted(map(str, (full | extra) - got))[:6], sorted(map(str, got - (full | extra)))[:6]),
+                    "case": ["after-failed-walk", wname, back]})
+                break
+            digests.add(digest(["after-failed-walk", wname, back]))
     # expressions over a bare top-level container
     for name, mk in [("neg-container", lambda: -r), ("container+1", lambda: r + 1), ("abs-container", lambda: abs(r)),
                      ("container-call", lambda: r(1)), ("round-container", lambda: round(r))]:
